@@ -5,6 +5,7 @@ pub mod engine;
 pub mod families;
 pub mod interp;
 pub mod run;
+pub mod sched;
 pub mod settings;
 pub mod shape;
 pub mod spm;
